@@ -1,5 +1,5 @@
 #!/bin/bash
-# usage: tools/seedverify.sh <ID> <n>   -- independently confirm a seeded change in its scratch worktree
+# usage: [FEATURES=a,b] tools/seedverify.sh <ID> <n>   -- independently confirm a seeded change in its scratch worktree
 ID=$1; N=$2
 WT=/tmp/wt/$ID; S=/tmp/seed/$ID
 cd $WT || exit 2
@@ -7,15 +7,15 @@ git checkout -q -- . ; git clean -fdq tests src Cargo.toml 2>/dev/null
 rm -f tests/seeded_demo*.rs
 cp $S/demo$N.rs tests/seeded_demo$N.rs
 echo "--- demo WITHOUT patch (expect pass)"
-cargo test --offline --test seeded_demo$N 2>&1 | grep -E "^test result|error\[|error:|FAILED|panicked" | head -5
+cargo test --offline ${FEATURES:+--features $FEATURES} --test seeded_demo$N 2>&1 | grep -E "^test result|error\[|error:|FAILED|panicked" | head -5
 git apply $S/patch$N.diff || { echo "PATCH DOES NOT APPLY"; exit 2; }
 echo "--- builds WITH patch"
 cargo build --offline 2>&1 | grep -E "^error|Finished" | tail -1
 cargo build --offline --features verif-hooks,tls,tls-ring,sni 2>&1 | grep -E "^error|Finished" | tail -1
-mv tests/seeded_demo$N.rs /tmp/seeded_demo_$ID_$N.rs
+mv tests/seeded_demo$N.rs /tmp/seeded_demo_${ID}_${N}.rs
 echo "--- 73-test suite WITH patch"
 cargo nextest run --workspace --no-fail-fast --offline 2>&1 | grep -E "Summary|FAIL " | head -5
-mv /tmp/seeded_demo_$ID_$N.rs tests/seeded_demo$N.rs
+mv /tmp/seeded_demo_${ID}_${N}.rs tests/seeded_demo$N.rs
 echo "--- demo WITH patch (expect failure)"
-cargo test --offline --test seeded_demo$N 2>&1 | grep -E "^test result|error\[|error:|FAILED|panicked" | head -5
+cargo test --offline ${FEATURES:+--features $FEATURES} --test seeded_demo$N 2>&1 | grep -E "^test result|error\[|error:|FAILED|panicked" | head -5
 git checkout -q -- . ; rm -f tests/seeded_demo*.rs
